@@ -145,7 +145,7 @@ def check_plan(plan):
 
 
 def cases(ctx):
-    n = 4000 if ctx.tier == 'quick' else 40000
+    n = 4000 if ctx.tier == 'quick' else 160000
     for i in range(n):
         r = core.rng_for(ctx.seed, 'C09', i)
         k = r.random()
